@@ -63,6 +63,14 @@ Definition policy_first (vf : list vlist) (h : nat) (b : vec) : option (nat * na
                end
   end.
 
+(* src: Policy::getActionProbability(b, a, horizon): 1 for the action sampleAction(b, horizon) returns, else 0
+   (getActionProbability(b, a) is the same at the last horizon) *)
+Definition policy_prob (vf : list vlist) (h : nat) (b : vec) (a : nat) : Q :=
+  match policy_first vf h b with
+  | Some (a', _) => if Nat.eqb a a' then 1 else 0
+  | None => 0
+  end.
+
 (* src: POMDP/Utils.hpp:crossSumBestAtBelief(b, row, &out, &value) for one action row: per
    observation take findBestAtPoint of the projection list at b, add its vector, link to ITS parent
    id (observations[0]).  [row] is the list of projection lists, one per observation. *)
